@@ -283,8 +283,24 @@ func twinThroughParam(p *Prog, root, h *ssa.Function, par *ssa.Parameter) bool {
 		var first *ssa.Call
 		for _, ins := range b.Instrs {
 			c, ok := ins.(*ssa.Call)
-			if !ok || c.Call.StaticCallee() != h || k >= len(c.Call.Args) {
+			if !ok || k >= len(c.Call.Args) {
 				continue
+			}
+			if c.Call.StaticCallee() != h {
+				// a call through a function value (the visitor's callback) that the call graph resolves to h
+				if c.Call.StaticCallee() != nil || c.Call.IsInvoke() {
+					continue
+				}
+				callees, _ := p.Callees(b.Parent(), c)
+				isH := false
+				for _, cc := range callees {
+					if cc == h {
+						isH = true
+					}
+				}
+				if !isH {
+					continue
+				}
 			}
 			for _, lc := range locsOf(c.Call.Args[k], 0) {
 				fs.add(lc[0])
@@ -823,6 +839,22 @@ func ruleTextIdentity(p *Prog, l *Ledger, tier string) {
 			}
 			cx, okx := bo.X.(*ssa.Call)
 			cy, oky := bo.Y.(*ssa.Call)
+			if !okx && !oky {
+				// identity strings computed once into a table kept parallel to the list
+				tx, ty := identityTableOf(bo.X), identityTableOf(bo.Y)
+				if tx != nil && ty != nil && tx.mk == ty.mk {
+					n++
+					key := l.Key(rule, "Subtitles.Unfragment", "compare", "")
+					if why := identityTableSound(p, b.Parent(), tx, str); strings.HasPrefix(why, "VIOLATION: ") {
+						l.Fail(rule, "Subtitles.Unfragment", key, p.Pos(bo.Pos()), "Subtitles.Unfragment compares entries of a table of identity strings: "+strings.TrimPrefix(why, "VIOLATION: "))
+					} else if why != "" {
+						l.Undecide(rule, "Subtitles.Unfragment", key, p.Pos(bo.Pos()), "the merge test compares entries of a table of strings, and that table is not shown to hold Item.String() of the cue at the same index at every moment: "+why)
+					} else {
+						l.Prove(rule, "Subtitles.Unfragment", key, p.Pos(bo.Pos()), "both operands are entries of a table filled with Item.String() of the cue at the same index after ordering, and deleted from in lockstep with the list")
+					}
+				}
+				continue
+			}
 			if !okx || !oky || !isStringT(cx.Type()) || !isStringT(cy.Type()) {
 				continue
 			}
@@ -1173,7 +1205,21 @@ func ruleFullScan(names ...string) func(p *Prog, l *Ledger, tier string) {
 			if fn == nil {
 				continue
 			}
-			for _, li := range loopsOf(fn) {
+			// the loops of the operation itself, and the loops over a cue list (index against len(….Items)) of the
+			// library helpers it calls (a visitor the per-cue work was handed to)
+			var loops []*loopInfo
+			loops = append(loops, loopsOf(fn)...)
+			for _, h := range p.Helpers(fn) {
+				if h == fn || fnPkg(h) != p.LibSSA {
+					continue
+				}
+				for _, li := range loopsOf(h) {
+					if iff, ok := li.header.Instrs[len(li.header.Instrs)-1].(*ssa.If); ok && isLoopBoundCond(iff.Cond) && loopOverItems(iff.Cond) {
+						loops = append(loops, li)
+					}
+				}
+			}
+			for _, li := range loops {
 				n++
 				key := l.Key(rule, name, "loop", loopDesc(li))
 				bad := ""
@@ -1207,6 +1253,25 @@ func ruleFullScan(names ...string) func(p *Prog, l *Ledger, tier string) {
 		}
 		l.Min(rule, n, len(names))
 	}
+}
+
+// loopOverItems: the bound of the loop is the length of a list loaded from a field called Items.
+func loopOverItems(c ssa.Value) bool {
+	bo, ok := c.(*ssa.BinOp)
+	if !ok {
+		return false
+	}
+	for _, side := range []ssa.Value{bo.X, bo.Y} {
+		base, _ := linear(side)
+		if call, ok := base.(*ssa.Call); ok {
+			if bi, ok := call.Call.Value.(*ssa.Builtin); ok && bi.Name() == "len" {
+				if _, f, _ := loadedField(call.Call.Args[0]); f == "Items" {
+					return true
+				}
+			}
+		}
+	}
+	return false
 }
 
 // ---- E13-I5 complementary exit (added after seeded change C11/3) -----------------------------------
